@@ -14,8 +14,10 @@ import (
 	"io"
 	"sync"
 	"testing"
+	"time"
 
 	pb "github.com/buchgr/bazel-remote/v2/genproto/build/bazel/remote/execution/v2"
+	"google.golang.org/genproto/googleapis/bytestream"
 	"google.golang.org/grpc/codes"
 	"google.golang.org/grpc/status"
 	"google.golang.org/protobuf/proto"
@@ -35,6 +37,8 @@ type vMemProxy struct {
 	m    map[string]vMemEntry
 	gets int
 	off  bool // stop recording uploads
+	// a v2 object store cannot tell the logical size of a compressed CAS entry: Contains answers -1
+	hideSize bool
 }
 
 func (p *vMemProxy) key(kind cache.EntryKind, hash string) string { return kind.String() + "/" + hash }
@@ -67,6 +71,9 @@ func (p *vMemProxy) Contains(ctx context.Context, kind cache.EntryKind, hash str
 	e, ok := p.m[p.key(kind, hash)]
 	if !ok {
 		return false, -1
+	}
+	if p.hideSize && kind == cache.CAS {
+		return true, -1
 	}
 	return true, e.logical
 }
@@ -276,6 +283,180 @@ func TestVerifServerReadThroughHardLimit(t *testing.T) {
 				}
 			}
 			f2.Close()
+		}
+	}
+}
+
+// C18 at the server level, back-end side: no object larger than max_proxy_blob_size is served or
+// cached from the back end, or reported present on its strength — whether the back end reports the
+// size of what it holds (raw object stores in uncompressed mode, a bazel-remote peer) or not (v2
+// object stores answer "exists, size unknown" for CAS entries).
+func TestVerifServerProxyLimit(t *testing.T) {
+	rec := vNewRecorder(t, "srvproxylimit")
+	defer rec.Close(t)
+	rng := vNewRand("srvproxylimit")
+	ctx := context.Background()
+	rec.Set("rule", "max_proxy_blob_size 4096 x back end reporting sizes / not reporting sizes x storage mode x object of 100, 4096, 4097, 20000 bytes x {HEAD, GET, GET zstd, FindMissingBlobs, ByteStream.Read, BatchReadBlobs, GetActionResult referring to the object}")
+	const limit = 4096
+	for _, mode := range []string{"uncompressed", "zstd"} {
+		for _, sized := range []bool{true, false} {
+			if !sized && mode != "zstd" {
+				continue // object stores report the size of raw objects
+			}
+			px := &vMemProxy{m: map[string]vMemEntry{}}
+			donor := vNewFix(t, vFixOpts{mode: mode, validateAC: true, extra: []disk.Option{disk.WithProxyBackend(px)}})
+			type obj struct {
+				data []byte
+				key  string
+			}
+			var objs []obj
+			for _, n := range []int{100, limit, limit + 1, 20000} {
+				for rep := 0; rep < 2; rep++ {
+					b := rng.Bytes(n)
+					donor.vPutBlob(t, b)
+					key := vSha(rng.Bytes(16))
+					ar := &pb.ActionResult{OutputFiles: []*pb.OutputFile{{Path: "o", Digest: &pb.Digest{Hash: vSha(b), SizeBytes: int64(n)}}}}
+					if _, err := donor.ac.UpdateActionResult(ctx, &pb.UpdateActionResultRequest{ActionDigest: &pb.Digest{Hash: key, SizeBytes: 1}, ActionResult: ar}); err != nil {
+						t.Fatal(err)
+					}
+					objs = append(objs, obj{data: b, key: key})
+				}
+			}
+			donor.Close()
+			px.mu.Lock()
+			px.off = true
+			px.hideSize = !sized
+			px.mu.Unlock()
+			f := vNewFix(t, vFixOpts{mode: mode, validateAC: true, depsCheck: true, extra: []disk.Option{disk.WithProxyBackend(px), disk.WithProxyMaxBlobSize(limit)}})
+			for oi, o := range objs {
+				h := vSha(o.data)
+				n := int64(len(o.data))
+				over := n > limit
+				// one path per object first (each path gets its turn on a cache that has not seen the object), then all
+				paths := []string{"head", "findMissing", "get", "getZstd", "bsRead", "batchRead", "getAC"}
+				first := oi % len(paths)
+				paths[0], paths[first] = paths[first], paths[0]
+				for _, p := range paths {
+					rec.Case()
+					present := false
+					switch p {
+					case "head":
+						code, _, _ := f.vHTTPDo("HEAD", "/cas/"+h, nil, nil)
+						present = code == 200
+					case "get":
+						code, body, _ := f.vHTTPDo("GET", "/cas/"+h, nil, nil)
+						present = code == 200 && len(body) > 0
+					case "getZstd":
+						code, body, _ := f.vHTTPDo("GET", "/cas/"+h, map[string]string{"Accept-Encoding": "zstd"}, nil)
+						present = code == 200 && len(body) > 0
+					case "findMissing":
+						miss, _ := f.vMissing(h, n)
+						present = !miss
+					case "bsRead":
+						got, c, _ := f.vBSRead(fmt.Sprintf("blobs/%s/%d", h, n), 0, 0)
+						present = c == codes.OK && len(got) > 0
+					case "batchRead":
+						r, err := f.cas.BatchReadBlobs(ctx, &pb.BatchReadBlobsRequest{Digests: []*pb.Digest{{Hash: h, SizeBytes: n}}})
+						present = err == nil && r.Responses[0].GetStatus().GetCode() == 0
+					case "getAC":
+						_, err := f.ac.GetActionResult(ctx, &pb.GetActionResultRequest{ActionDigest: &pb.Digest{Hash: o.key, SizeBytes: 1}})
+						present = err == nil
+					}
+					sig := fmt.Sprintf("mode=%s back-end-reports-size=%v object=%d bytes path=%s", mode, sized, n, p)
+					rec.Note(sig + fmt.Sprintf(" -> present=%v", present))
+					rec.Count(fmt.Sprintf("%s.over=%v.present=%v", p, over, present))
+					rec.Distinct(sig)
+					if over && present {
+						ss := "size-reported"
+						if !sized {
+							ss = "size-unknown"
+						}
+						rec.Violation("C18", "proxylimit.oversize-present."+p+"."+ss, sig+": an object larger than max_proxy_blob_size was served or reported present on the strength of the back end", map[string]interface{}{"mode": mode, "sized": sized, "size": n, "path": p})
+					}
+					if !over && !present {
+						rec.Violation("C12", "proxylimit.within-absent."+p, sig+": an object within max_proxy_blob_size that the back end holds was not served / reported present", nil)
+					}
+				}
+				// nothing oversize may have been cached
+				if over {
+					px.mu.Lock()
+					saved := px.m
+					px.m = map[string]vMemEntry{}
+					px.mu.Unlock()
+					if miss, _ := f.vMissing(h, n); !miss {
+						rec.Violation("C18", "proxylimit.oversize-cached", fmt.Sprintf("mode=%s object=%d bytes: an oversize back-end object was cached locally", mode, n), nil)
+					}
+					px.mu.Lock()
+					px.m = saved
+					px.mu.Unlock()
+				}
+			}
+			f.Close()
+		}
+	}
+}
+
+// C16 with a back end: a ByteStream.Write (and QueryWriteStatus) for a blob that is not held locally
+// but by the back end is an upload of an existing blob: it returns early with committed_size = the
+// blob size for blobs/ names and -1 for compressed-blobs/ names — whether or not the back end can
+// tell the size of what it holds.
+func TestVerifServerWriteExistingInBackend(t *testing.T) {
+	rec := vNewRecorder(t, "srvbackendwrite")
+	defer rec.Close(t)
+	rng := vNewRand("srvbackendwrite")
+	rec.Set("rule", "storage mode x back end reporting sizes / not x {blobs/, compressed-blobs/zstd/} x {whole stream sent, only the first message}: Write of a blob only the back end holds; QueryWriteStatus for it")
+	for _, mode := range []string{"zstd", "uncompressed"} {
+		for _, sized := range []bool{true, false} {
+			if !sized && mode != "zstd" {
+				continue
+			}
+			px := &vMemProxy{m: map[string]vMemEntry{}}
+			donor := vNewFix(t, vFixOpts{mode: mode, extra: []disk.Option{disk.WithProxyBackend(px)}})
+			var blobs [][]byte
+			for i := 0; i < vScale(6, 30); i++ {
+				b := rng.Bytes(500 + rng.Intn(9000))
+				donor.vPutBlob(t, b)
+				blobs = append(blobs, b)
+			}
+			donor.Close()
+			px.mu.Lock()
+			px.off, px.hideSize = true, !sized
+			px.mu.Unlock()
+			f := vNewFix(t, vFixOpts{mode: mode, extra: []disk.Option{disk.WithProxyBackend(px)}})
+			for i, b := range blobs {
+				rec.Case()
+				h, n := vSha(b), int64(len(b))
+				z := i%2 == 1
+				name := fmt.Sprintf("uploads/u%d/blobs/%s/%d", i, h, n)
+				wire, want := b, n
+				if z {
+					name = fmt.Sprintf("uploads/u%d/compressed-blobs/zstd/%s/%d", i, h, n)
+					wire, want = vZstd(b), -1
+				}
+				sig := fmt.Sprintf("mode=%s back-end-reports-size=%v name=%s", mode, sized, name[:30])
+				q, qerr := f.bs.QueryWriteStatus(context.Background(), &bytestream.QueryWriteStatusRequest{ResourceName: name})
+				if qerr != nil || !q.Complete || q.CommittedSize != n {
+					rec.Violation("C16", "backendwrite.qws", fmt.Sprintf("%s: QueryWriteStatus of a blob the back end holds: %v complete=%v committed=%d, want complete with %d", sig, qerr, q.GetComplete(), q.GetCommittedSize(), n), nil)
+				}
+				abort := -1
+				if i%3 == 0 && len(wire) > 2000 {
+					abort = -2 // only the first message is sent, then the stream is half-closed
+				}
+				var committed int64
+				var err error
+				if abort == -2 {
+					committed, err, _ = f.vWriteMsgs([]vMsg{{name: name, data: wire[:1000]}}, true, 3*time.Second)
+				} else {
+					committed, err = f.vBSWrite(name, wire, 1000, -1, true)
+				}
+				rec.Note(fmt.Sprintf("%s first-message-only=%v -> %v committed=%d", sig, abort == -2, vGRPCCode(err), committed))
+				rec.Count(fmt.Sprintf("write.zstd=%v.%s", z, vGRPCCode(err)))
+				rec.Distinct(fmt.Sprintf("%s:%v:%d", mode, sized, i))
+				if err != nil || committed != want {
+					rec.Violation("C16", "backendwrite.committed", fmt.Sprintf("%s: Write of a blob the back end holds answered %v committed_size=%d, want OK with %d", sig, vGRPCCode(err), committed, want), map[string]interface{}{"mode": mode, "sized": sized, "zstd": z})
+				}
+			}
+			f.Close()
 		}
 	}
 }
